@@ -675,10 +675,14 @@ def _handler_keys(chk, repo):
              call_attr(n.ast.value) == "get_event_and_condition_from_string"]
     chk.need(len(parse) == 1 and isinstance(parse[0].ast.targets[0], ast.Tuple), "KEY-7", "add_handler parses the event string", f)
     ev = src(parse[0].ast.targets[0].elts[0])
-    app = [(n, c) for n, c in cfg.calls_named("append") if "registered_handlers" in src(c.func)]
+    # (a local alias of the handler list - `handlers = self.registered_handlers[event]; handlers.append(..)` - is the list itself)
+    alias = {src(x.targets[0]): x.value for x in walk_local(f.node) if isinstance(x, ast.Assign) and isinstance(x.targets[0], ast.Name) and
+             isinstance(x.value, ast.Subscript) and "registered_handlers" in src(x.value.value)}
+    app = [(n, c) for n, c in cfg.calls_named("append") if "registered_handlers" in src(c.func) or src(c.func.value) in alias]
     chk.need(len(app) == 1, "KEY-7", "add_handler files the registration", f)
     an, ac = app[0]
-    filed = src(ac.func.value.slice) if isinstance(ac.func.value, ast.Subscript) else None
+    lst = alias.get(src(ac.func.value), ac.func.value)
+    filed = src(lst.slice) if isinstance(lst, ast.Subscript) else None
     rh = ac.args[0] if ac.args else None
     k_stored = src(rh.args[3]) if isinstance(rh, ast.Call) and len(rh.args) > 3 else None
     ok = filed == ev and cfg.dominates(parse[0].id, an.id)
